@@ -326,11 +326,19 @@ def bounded(b):
         # (as a reader does that meets the signature once per staff) - whichever of the two counts, 6/8 is in force from t=24
         p.add(sc.TimeSignature(6, 8), 24)
         p.add(sc.TimeSignature(6, 8), 24)
+    def entered_removed_entered(p):
+        # a signature entered inside a bar, taken out again at once and replaced (three consecutive operations at one position)
+        wrong = sc.TimeSignature(3, 4)
+        p.add(wrong, 20)
+        p.remove(wrong)
+        p.add(sc.TimeSignature(6, 8), 20)
     for ename, base, edit, direct in (
             ("bars_removed_through_their_time_points_and_an_upbeat_bar_added", lambda: rebar_base(((0, 12), (12, 24), (24, 36))), rebar_through_the_points,
              lambda: rebar_base(((0, 2), (2, 14), (14, 26), (26, 38)))),
             ("a_signature_removed_through_its_time_point", lambda: rebar_base(((0, 2), (2, 14), (14, 26), (26, 38)), sigs=((0, 6, 8), (14, 3, 4))), signature_taken_out_through_its_point,
              lambda: rebar_base(((0, 2), (2, 14), (14, 26), (26, 38)))),
+            ("a_signature_entered_removed_and_entered_again_inside_a_bar", lambda: rebar_base(((0, 16), (16, 32), (32, 48)), sigs=((0, 4, 4),), end=48), entered_removed_entered,
+             lambda: rebar_base(((0, 16), (16, 32), (32, 48)), sigs=((0, 4, 4), (20, 6, 8)), end=48)),
             ("the_same_signature_entered_twice_inside_a_bar", lambda: rebar_base(((0, 16), (16, 32), (32, 48)), sigs=((0, 4, 4),), end=48), same_signature_entered_twice,
              lambda: rebar_base(((0, 16), (16, 32), (32, 48)), sigs=((0, 4, 4), (24, 6, 8)), end=48))):
         for mus in (False, True):
